@@ -313,6 +313,12 @@ func cEv(o oev) string {
 		return common.App("OClaim", common.Nat(o.T), common.Bool(o.Inplace), common.Nat(o.Hm), common.Bool(o.Od), pl, common.List(sn))
 	case "Patched":
 		return common.App("OPatched", common.Nat(o.T), cKcs(o.Res))
+	case "Reidx":
+		ks := []string{}
+		for _, x := range o.Res {
+			ks = append(ks, common.N(uint64(x.K)))
+		}
+		return common.App("OReidx", common.Nat(o.T), common.List(ks))
 	case "Put":
 		return common.App("OPut", common.N(uint64(o.K)))
 	case "Del":
@@ -451,9 +457,14 @@ func runForced(e *lib.Env, rs []rec, ps []prog, sched []mstep, kind string) obs 
 				}
 				o.Events = append(o.Events, ev)
 			}
+			wasPatched := patched[t]
 			if p.Kind == "PE" && !patched[t] && (st.m.Kind == "Patched" || st.m.Kind == "Finish") {
 				patched[t] = true
 				o.Events = append(o.Events, oev{Kind: "Patched", T: t, Res: results[t].res})
+			}
+			if p.Kind == "PE" && wasPatched && st.m.Kind == "Finish" {
+				// the final re-index ran in this step, separately from the patches
+				o.Events = append(o.Events, oev{Kind: "Reidx", T: t, Res: results[t].res})
 			}
 		} else {
 			switch p.Kind {
